@@ -248,6 +248,7 @@ impl World {
 }
 
 fn exec_seq(ops: &[Op]) -> Sx {
+    progress();
     let mut w = World::new();
     let mut obs = vec![];
     for &op in ops {
@@ -308,6 +309,32 @@ pub fn set_no_park(b: bool) {
 /// "slotguard.sent" hook is not a scheduling point (nothing observable happens there).
 pub fn set_in_close(b: bool) {
     IN_CLOSE.with(|c| c.set(b));
+}
+static PROGRESS: std::sync::atomic::AtomicU64 = std::sync::atomic::AtomicU64::new(0);
+/// Called once per executed case; the watchdog ends the process when nothing has progressed for two minutes
+/// (a deadlock of the code under test in a free-running run would otherwise hang the check).
+pub fn progress() {
+    PROGRESS.fetch_add(1, SeqCst);
+}
+pub fn start_watchdog() {
+    std::thread::spawn(|| {
+        let mut last = PROGRESS.load(SeqCst);
+        let mut idle = 0u32;
+        loop {
+            std::thread::sleep(std::time::Duration::from_secs(5));
+            let now = PROGRESS.load(SeqCst);
+            if now == last {
+                idle += 1;
+                if idle >= 24 {
+                    eprintln!("harness watchdog: no case completed for 120 s (deadlock in the code under test?)");
+                    std::process::exit(3);
+                }
+            } else {
+                idle = 0;
+                last = now;
+            }
+        }
+    });
 }
 pub fn set_perturb(r: Option<Rng>) {
     PERTURB.with(|p| *p.borrow_mut() = r);
@@ -476,6 +503,7 @@ pub fn keepalive_blocked(parked: &[(usize, &'static str)], t: usize, holder: Opt
 /// One run of a threaded case: `setup` on the calling thread, then the per-thread programs under `choose`.
 /// Returns (implementation output, branching degrees, actual thread sequence).
 fn exec_threads(setup: &[Op], prog: &[(usize, Op)], choose: &mut dyn FnMut(&[usize]) -> usize) -> (Sx, Vec<usize>, Vec<usize>) {
+    progress();
     let nthreads = prog.iter().map(|(t, _)| *t + 1).max().unwrap_or(0);
     let mut w = World::new();
     for &op in setup {
@@ -664,6 +692,7 @@ fn explore(out: &mut Out, setup: &[Op], prog: &[(usize, Op)], limit: usize, rng:
 /// predicate only: exactly one append once everything is dropped, made when nobody owned the entry and the
 /// guards were gone or overridden, carrying every mutation exactly once.
 fn exec_stress(setup: &[Op], prog: &[(usize, Op)], seed: u64) -> Result<(), String> {
+    progress();
     install_controller();
     let nthreads = prog.iter().map(|(t, _)| *t + 1).max().unwrap_or(0);
     let mut w = World::new();
@@ -917,6 +946,7 @@ fn count_ops(out: &mut Out, ops: &[Op]) {
 }
 
 pub fn run(ctx: &Ctx) {
+    start_watchdog();
     let mut out = Out::new(ctx, "");
     let emit = |out: &mut Out, case: Sx| {
         let (imp, nt) = exec(&case);
